@@ -186,3 +186,132 @@ def chunks(tier, size=8):
         for lo in range(0, len(specs), size):
             out.append({"u": name, "lo": lo, "hi": min(len(specs), lo + size)})
     return out
+
+
+def derived(m):
+    """(vtype, function real graph -> real graph): objects the LIBRARY derives from a graph and that must still denote the
+    same graph - permuted subgraph, composition of pieces, copy construction, copy, JSON round trip, relabelling there and
+    back, and an edit history that adds and removes an extra atom.  The caller verifies (by snapshot) that the derived
+    object really has the same labelled content before ==/hash are compared; if not, that is C17 / C10 / C11's business."""
+    ids = list(m.atoms)
+    n = len(ids)
+    if n == 0:
+        return
+    yield "derived-copy", lambda g: g.copy()
+    yield "derived-construct", lambda g: type(g)(g)
+    yield "derived-subgraph-reversed", lambda g: g.subgraph(list(reversed(ids)))
+    yield "derived-subgraph-rotated", lambda g: g.subgraph(tuple(ids[n // 2:] + ids[:n // 2]))
+    yield "derived-compose-one", lambda g: type(g).compose([g])
+    yield "derived-compose-components", lambda g: type(g).compose(
+        [g.subgraph(sorted(c, reverse=True)) for c in reversed(g.connected_components())])
+    if n >= 2:
+        yield "derived-compose-overlap", lambda g: type(g).compose([g.subgraph(ids[1:]), g, g.subgraph(ids[:1])])
+    mp = dict(zip(ids, [a + 1000 for a in reversed(ids)]))
+    inv = {v: k for k, v in mp.items()}
+    yield "derived-relabel-roundtrip-copy", lambda g: g.relabel_atoms(dict(mp), copy=True).relabel_atoms(dict(inv), copy=True)
+
+    def inplace(g):
+        g.relabel_atoms(dict(mp), copy=False)
+        g.relabel_atoms(dict(inv), copy=False)
+        return g
+
+    yield "derived-relabel-roundtrip-inplace", inplace
+
+    def history(g):
+        x = max(ids) + 77
+        g.add_atom(x, "C")
+        g.add_bond(x, ids[0])
+        hash(g)
+        g.remove_bond(x, ids[0])
+        g.add_bond(ids[0], x)
+        g.remove_atom(x)
+        return g
+
+    yield "derived-add-remove-history", history
+
+    def json_rt(g):
+        from stereomolgraph.experimental import JSONHandler
+
+        return JSONHandler.json_deserialize(JSONHandler.json_serialize(g))
+
+    yield "derived-json", json_rt
+
+    def retype(g):
+        # set the same element again through the attribute API after hashing (cached hash / colour state)
+        hash(g)
+        for a in ids:
+            g.set_atom_attribute(a, "atom_type", g.get_atom_type(a))
+        return g
+
+    yield "derived-reset-elements", retype
+
+
+def same_content(g2, m):
+    """does the derived real object have exactly the labelled content of spec m?"""
+    from ..snapshot import norm, snap
+
+    return norm(snap(g2), drop_empty_changes=True) == m.observe()
+
+
+def edited_after_use(m):
+    """(vtype, function real graph -> real graph, expected spec): the graph is hashed and compared first (so that any cached
+    hash / colouring exists), then edited through the public API; it must then equal - and hash like - a freshly built graph
+    with the edited content."""
+    from ..universe.graphs import rdesc
+
+    ids = list(m.atoms)
+    if not ids:
+        return
+
+    def use(g):
+        hash(g)
+        g == g
+        g == g.copy()
+
+    a0 = ids[0]
+    m2 = m.copy()
+    m2.atoms[a0]["atom_type"] = 14 if m.atoms[a0]["atom_type"] != 14 else 32
+
+    def f_el(g):
+        use(g)
+        g.set_atom_attribute(a0, "atom_type", "Si" if m.atoms[a0]["atom_type"] != 14 else "Ge")
+        return g
+
+    yield "edited-element-after-hash", f_el, m2
+    if m.bonds and not (m.astereo or m.bstereo or m.achg or m.bchg):
+        b = next(iter(m.bonds))
+        m3 = m.copy()
+        del m3.bonds[b]
+
+        def f_rb(g):
+            use(g)
+            g.remove_bond(*b)
+            return g
+
+        yield "edited-remove-bond-after-hash", f_rb, m3
+    if m.kind in RG.REACTION and m.bonds and not (m.astereo or m.bstereo or m.achg or m.bchg):
+        # (a role change under a descriptor would make the graph stereo-invalid: reactant()/product() then rightly raise)
+        b = next(iter(m.bonds))
+        m4 = m.copy()
+        new = "Change.BROKEN" if m.bonds[b].get("reaction") != "Change.BROKEN" else "Change.FORMED"
+        m4.bonds[b]["reaction"] = new
+
+        def f_role(g):
+            from stereomolgraph.graphs.crg import Change
+
+            use(g)
+            g.set_bond_attribute(*b, "reaction", Change[new.split(".")[1]])
+            return g
+
+        yield "edited-role-after-hash", f_role, m4
+    for c, d in list(m.astereo.items())[:1]:
+        if d[2] in (1, -1):
+            m5 = m.copy()
+            m5.astereo[c] = (d[0], d[1], -d[2])
+
+            def f_par(g, c=c, d=d):
+                use(g)
+                g.set_atom_stereo(rdesc((d[0], d[1], -d[2])))
+                return g
+
+            yield "edited-parity-after-hash", f_par, m5
